@@ -659,15 +659,16 @@ def run(ctx):
             extra_cases.append((ls, [0] * (len(ls) - 1) + [k], bool(st["inst"]), st["fname"]))
 
     mcs = []
+    skip_design = os.environ.get("VERIF_SKIP_DESIGN") == "1"   # negative controls only: the spec is unchanged
     model = run_mc("DesktopSanitize_mc_model.cfg", 4, 600, coverage=True)     # loop = Sanitize, with coverage
     mcs.append(model)
     if model.ok:
         tlc.require_coverage(model, ["AppendLine"])
-    mc = run_mc("DesktopSanitize_mc.cfg", ctx.pick(8, 16), 1200)              # all files of <= 3 lines
+    mc = model if skip_design else run_mc("DesktopSanitize_mc.cfg", ctx.pick(8, 16), 1200)   # files of <= 3 lines
     mcs.append(mc)
-    maxlen = 3
+    maxlen = 2 if skip_design else 3
     skipped_len4 = None
-    if mc.ok and not ctx.quick:
+    if mc.ok and not ctx.quick and not skip_design:
         est = 49.0 * mc.wall                  # ~48 times the states, same number of workers
         if est <= 1500:
             mc4 = run_mc("DesktopSanitize_mc_thorough.cfg", 16, 2400, heap="16g")
@@ -751,6 +752,8 @@ def run(ctx):
                        "InvNoInvention", "InvLoopIsSanitize"],
     }
     cov["action_coverage"] = tlc.coverage_summary(model)
+    if skip_design:
+        cov["bound_note"] = "design part reduced to the MaxLen=2 model (VERIF_SKIP_DESIGN=1, negative controls only)"
     if skipped_len4:
         cov["bound_note"] = skipped_len4
     return Result(
